@@ -1,6 +1,6 @@
 """Target table for tools/translate.py: which functions of /repo/src/aspire are translated, what their
 free names stand for, and which generated file each definition goes to."""
-from translate import (N, Abs, NoneV, Obj, Opaque, S, Tup, Untranslatable, V, emit_defs, emit_calls, var, RTABLE, XTABLE, HEADER, XHEADER)
+from translate import (ModV, N, Abs, NoneV, Obj, Opaque, S, Tup, Untranslatable, V, emit_defs, emit_calls, var, RTABLE, XTABLE, HEADER, XHEADER)
 import json
 import traceback
 
@@ -158,6 +158,71 @@ def run_calls(tr, targets, status, irall, meta):
     return "\n".join(chunks)
 
 
+TRANSFORMS_HEADER = """(* GENERATED on every run by /verif/tools/translate.py from /repo/src/aspire/transforms.py (working tree). Do not edit.
+   Per-row convention: x / y are ONE row (a list over the coordinates the transform acts on); `.sum(-1)` is the sum over
+   coordinates; erf / erfinv are the scipy special functions (Section variables of the proofs). *)
+From Coq Require Import Reals List Bool.
+From AV Require Import Lib.Vec Gen.Kernels.
+Import ListNotations.
+Open Scope R_scope.
+
+Section Transforms.
+  Variables (erf erfinv : R -> R).
+"""
+
+
+def transforms_targets():
+    binit = lambda extra=None: [("__init__", dict({"lower": V("lower"), "upper": V("upper"), "xp": ModV("xp"), "dtype": NoneV()},
+                                                  **(extra or {})), None)]
+    io = lambda n: [(n, "V"), ("lower", "V"), ("upper", "V")]
+    T = []
+    for m, arg in (("forward", "x"), ("inverse", "y")):
+        T.append(dict(name=f"periodic_{m}", module="transforms", cls="PeriodicTransform", func=m, inputs=io(arg),
+                      pre_methods=binit(), params={arg: V(arg)}, outputs={"y": "return[0]", "logj": "return[1]"}))
+        T.append(dict(name=f"logit_t_{m}", module="transforms", cls="LogitTransform", func=m, inputs=io(arg) + [("eps", "S")],
+                      pre_methods=binit({"eps": S("eps")}), params={arg: V(arg)}, outputs={"y": "return[0]", "logj": "return[1]"}))
+        T.append(dict(name=f"probit_t_{m}", module="transforms", cls="ProbitTransform", func=m, inputs=io(arg) + [("eps", "S")],
+                      pre_methods=binit({"eps": S("eps")}), params={arg: V(arg)}, outputs={"y": "return[0]", "logj": "return[1]"}))
+        T.append(dict(name=f"affine_{m}", module="transforms", cls="AffineTransform", func=m,
+                      inputs=[(arg, "V"), ("mean", "V"), ("std", "V")],
+                      pre_methods=[("__init__", {"xp": ModV("xp"), "dtype": NoneV()}, None),
+                                   ("fit", {"x": V("xfit")}, {"x.mean(0)": V("mean"), "x.std(0)": V("std")})],
+                      params={arg: V(arg)}, outputs={"y": "return[0]", "logj": "return[1]"}))
+    T.append(dict(name="affine_fit", module="transforms", cls="AffineTransform", func="fit",
+                  inputs=[("x", "V"), ("mean", "V"), ("std", "V")],
+                  pre_methods=[("__init__", {"xp": ModV("xp"), "dtype": NoneV()}, None)],
+                  overrides={"x.mean(0)": V("mean"), "x.std(0)": V("std")},
+                  params={"x": V("x")}, outputs={"y": "return"}))
+    for cls_, nm in (("PeriodicTransform", "periodic"), ("LogitTransform", "logit_t"), ("ProbitTransform", "probit_t")):
+        extra = {} if nm == "periodic" else {"eps": S("eps")}
+        T.append(dict(name=f"{nm}_fit", module="transforms", cls=cls_, func="fit",
+                      inputs=io("x") + ([("eps", "S")] if extra else []), pre_methods=binit(extra),
+                      params={"x": V("x")}, outputs={"y": "return"}))
+    return T
+
+
+def run_transforms(tr, status, irall, meta):
+    chunks = []
+    for spec in transforms_targets():
+        name = spec["name"]
+        try:
+            ex, outs = tr.translate(spec)
+            text, ir = emit_defs(name, spec["inputs"], ex, outs, TRTABLE, section_types=True)
+            chunks.append(f"(* ---- {spec['module']}.{spec.get('cls')}.{spec['func']}"
+                          f"{'  guards(raise if): ' + '; '.join(ex.guards) if ex.guards else ''} *)\n" + text)
+            irall.update(ir)
+            meta[name] = {"guards": ex.guards}
+            status[name] = (True, "")
+        except Untranslatable as e:
+            status[name] = (False, f"Untranslatable: {e}")
+        except Exception:
+            status[name] = (False, traceback.format_exc()[-1500:])
+    return "\n".join(chunks)
+
+
+TRTABLE = dict(RTABLE)
+
+
 ROWS_HEADER = """(* GENERATED on every run by /verif/tools/translate.py from /repo/src/aspire/samples.py (working tree). Do not edit. *)
 From Coq Require Import Reals List Bool.
 From AV Require Import Lib.Vec Lib.Soa Gen.Kernels.
@@ -234,6 +299,10 @@ def build(tr, status):
     body3 = run_targets(tr, rows_targets(), RTABLE, status, ir3, meta3)
     files["Rows.v"] = ROWS_HEADER + "\n" + body3
     files["rows_ir.json"] = json.dumps({"ir": ir3, "meta": meta3}, indent=0, default=str)
+    ir4, meta4 = {}, {}
+    body4 = run_transforms(tr, status, ir4, meta4)
+    files["Transforms.v"] = TRANSFORMS_HEADER + "\n" + body4 + "\nEnd Transforms.\n"
+    files["transforms_ir.json"] = json.dumps({"ir": ir4, "meta": meta4}, indent=0, default=str)
     ir2, meta2 = {}, {}
     body2 = run_calls(tr, calls_targets(), status, ir2, meta2)
     files["Calls.v"] = CALLS_HEADER + "\n" + body2 + "\nEnd Calls.\n"
